@@ -5,6 +5,7 @@ Kinds of case (`case['k']`):
          present, and shlex) - oracle: exactly the arguments come back;  model: args2sh + the Lean POSIX lexer
   cmd    args2cmd(args) / escape_shell_args(style='cmd'): the text is split by an independent Python
          transliteration of the MS C runtime parse_cmdline (3 historical variants of the "" rule)
+  esa    escape_shell_args(args, style) for style in sh / cmd / None / unknown (dispatch; ValueError)
   fmt    format_int_list(L) -> text; parse_int_list(text); int_ranges_from_int_list(text)
   parse  parse_int_list / int_ranges_from_int_list on grammar-generated (also malformed) texts - correspondence only
   compl  complement_int_list(text, range_start, range_end)
@@ -250,9 +251,9 @@ class C14(Property):
     QUICK_BUDGET_S = 45
     THOROUGH_BUDGET_S = 700
     RULE = ('a case is one call: sh/cmd = a list of argument strings (exhaustive: all strings <= 2 over a '
-            '19-symbol hostile alphabet as single arguments, pairs of strings <= 1, every ASCII char alone and in '
+            '19-symbol hostile alphabet and <= 3 over its first 12 symbols as single arguments, pairs of strings <= 1, every ASCII char alone and in '
             'context, all strings <= 4 over {backslash, quote, blank, a}; random lists of up to 4 strings over a '
-            '50-symbol alphabet incl. non-BMP); fmt = a list of non-negative ints (exhaustive <= 4 over 0..6, random '
+            '50-symbol alphabet incl. non-BMP); fmt = a list of non-negative ints (exhaustive <= 5 over 0..5, random '
             'with multi-digit values and duplicates); parse = a range text over digits , - blanks (also malformed); '
             'compl = canonical or scrambled range text + window; gzip = bytes x level. Non-trivial: sh = an '
             'argument that needs quoting; cmd = an argument containing quote/backslash/blank or empty; fmt = a '
@@ -262,6 +263,7 @@ class C14(Property):
         'argument strings are sequences of Unicode scalar values without NUL (no lone surrogates)',
         'args2sh output is read by a POSIX shell in argument position of a simple command (so `=` is inert)',
         'args2cmd output is read by the MS C runtime rules for arguments after argv[0]',
+        'escape_shell_args(style=None) is modelled for a platform other than win32 (the check runs on Linux)',
         'integer lists hold non-negative ints; default delimiters (delim_space covered by the correspondence only)',
         'gzip clause: differential round-trip TEST only (zlib is external C code), not a theorem',
         'decimal rendering/parsing of ints is proved for the model\'s own toDigits/ofDigits and tied to Python by the correspondence',
@@ -323,7 +325,7 @@ class C14(Property):
         from boltons import strutils
         texts = []
         for c in chunk:
-            if c['k'] != 'sh':
+            if c['k'] != 'sh' and not (c['k'] == 'esa' and c['style'] in ('sh', None, '')):
                 continue
             try:
                 with time_limit(10):
@@ -367,8 +369,9 @@ class C14(Property):
         T = self.thorough
         # -- shell quoting, exhaustive small scope
         small = [''.join(t) for n in range(0, 3) for t in itertools.product(HOSTILE, repeat=n)]
+        small += [''.join(t) for t in itertools.product(HOSTILE if T else HOSTILE[:12], repeat=3)]
         if T:
-            small += [''.join(t) for t in itertools.product(HOSTILE[:12], repeat=3)]
+            small += [''.join(t) for t in itertools.product(HOSTILE[:8], repeat=4)]
         for s in small:
             yield {'k': 'sh', 'args': [s]}
             yield {'k': 'cmd', 'args': [s]}
@@ -383,6 +386,9 @@ class C14(Property):
                 yield {'k': 'cmd', 'args': [s]}
         yield {'k': 'sh', 'args': []}
         yield {'k': 'cmd', 'args': []}
+        for st in ('sh', 'cmd', None, '', 'bogus', 'SH', 'cmd '):
+            for args in ([], [''], ['a b', "c'd", 'e"f\\'], ['$a', '*']):
+                yield {'k': 'esa', 'style': st, 'args': args}
         core = [''.join(t) for n in range(0, 6 if T else 5) for t in itertools.product(CMD_CORE, repeat=n)]
         for s in core:
             yield {'k': 'cmd', 'args': [s]}
@@ -391,7 +397,7 @@ class C14(Property):
             for b in core2:
                 yield {'k': 'cmd', 'args': [a, b]}
         # -- integer lists, exhaustive small scope
-        top, ln = (8, 5) if T else (7, 4)
+        top, ln = (8, 6) if T else (6, 5)
         for n in range(0, ln + 1):
             for t in itertools.product(range(top), repeat=n):
                 yield {'k': 'fmt', 'L': list(t), 'sp': 0}
@@ -415,11 +421,14 @@ class C14(Property):
                 kind = ['rand', 'rep', 'text', 'zeros', 'gzlike'][(i + lvl) % 5]
                 yield {'k': 'gzip', 'spec': [kind, lvl * 100 + i, n], 'level': lvl}
         # -- seeded random, larger scope
-        n_rand = 60000 if T else 2600
+        n_rand = 300000 if T else 12000
         for i in range(n_rand):
             r = rng.random()
-            if r < 0.27:
+            if r < 0.25:
                 yield {'k': 'sh', 'args': self.rand_args(rng)}
+            elif r < 0.27:
+                yield {'k': 'esa', 'style': rng.choice(['sh', 'cmd', None, '', 'bogus', 'sh ', 'CMD']),
+                       'args': self.rand_args(rng)}
             elif r < 0.50:
                 yield {'k': 'cmd', 'args': self.rand_args(rng, cmd=True)}
             elif r < 0.68:
@@ -433,7 +442,7 @@ class C14(Property):
                                             rng.randrange(10 ** 6), rng.choice([0, 1, 5, 17, 300, 4097, 20000])],
                        'level': rng.randint(1, 9)}
         # -- adversarial
-        for c in self.adversarial(rng, 400 if T else 60):
+        for c in self.adversarial(rng, 3000 if T else 300):
             yield c
 
     def _deep(self):
@@ -546,6 +555,10 @@ class C14(Property):
             if any('\0' in a or has_surrogate(a) for a in case['args']):
                 return None
             return ' '.join([k] + [hx(a) for a in case['args']])
+        if k == 'esa':
+            if any('\0' in a or has_surrogate(a) for a in case['args']):
+                return None
+            return ' '.join(['esa', hx(case['style'] or '')] + [hx(a) for a in case['args']])
         if k == 'fmt':
             if any((not isinstance(x, int)) or x < 0 for x in case['L']):
                 return None
@@ -599,6 +612,18 @@ class C14(Property):
                     if not isinstance(text, str):
                         return {'exc': 'NotAString'}
                     return {'text': text, 'esa': esa}
+                if k == 'esa':
+                    try:
+                        text = strutils.escape_shell_args(list(case['args']), style=case['style'])
+                    except ValueError:
+                        return {'text': None}
+                    if not isinstance(text, str):
+                        return {'exc': 'NotAString'}
+                    obs = {'text': text}
+                    if case['style'] in ('sh', None, ''):
+                        obs['shlex'] = shlex_split(text)
+                        obs.update(self._sh(text))
+                    return obs
                 if k == 'fmt':
                     text = strutils.format_int_list(list(case['L']), delim_space=bool(case['sp']))
                     if not isinstance(text, str):
@@ -672,6 +697,8 @@ class C14(Property):
             t = obs['text']
             return 'T%s D%s L%s M%s' % (hx(t), show_list(crt_parse(t, 'D')), show_list(crt_parse(t, 'L')),
                                         show_list(crt_parse(t, 'M')))
+        if k == 'esa':
+            return 'ValueError' if obs['text'] is None else 'T%s' % hx(obs['text'])
         if k == 'fmt':
             return 'T%s P%s R%s' % (hx(obs['text']), self._nats(obs['parsed']), self._ranges(obs['ranges']))
         if k == 'parse':
@@ -690,6 +717,27 @@ class C14(Property):
             return None
         if 'exc' in obs:
             return Failure(k + '-raises', '%s raised %s on %r' % (k, obs['exc'], self.describe(case)))
+        if k == 'esa':
+            args = list(case['args'])
+            if any('\0' in a or has_surrogate(a) for a in args):
+                return None
+            st = case['style']
+            self._nt = True
+            if st == 'cmd':
+                if obs['text'] is None:
+                    return Failure('esa-raises', "escape_shell_args(style='cmd') raised ValueError")
+                for v in 'MLD':
+                    if crt_parse(obs['text'], v) != args:
+                        return Failure('cmd-split', "MS CRT rules (%s) split escape_shell_args(style='cmd') text %r into %r, not %r"
+                                       % (v, obs['text'], crt_parse(obs['text'], v), args))
+            elif st == 'sh':
+                if obs['text'] is None:
+                    return Failure('esa-raises', "escape_shell_args(style='sh') raised ValueError")
+                for name, _ in SHELLS:
+                    if obs[name] != args:
+                        return Failure('sh-split', "%s splits escape_shell_args(style='sh') text %r into %r, not %r"
+                                       % (name, obs['text'], obs[name], args))
+            return None     # other styles: the statement says nothing (correspondence only)
         if k == 'sh':
             args = list(case['args'])
             if any('\0' in a or has_surrogate(a) for a in args):
@@ -850,7 +898,7 @@ class C14(Property):
     # ------------------------------------------------------------------ shrinking
     def shrink(self, case):
         k = case['k']
-        if k in ('sh', 'cmd'):
+        if k in ('sh', 'cmd', 'esa'):
             args = case['args']
             for i in range(len(args)):
                 yield dict(case, args=args[:i] + args[i + 1:])
